@@ -45,6 +45,27 @@ func c16Word(r *core.Rng) string {
 	return w
 }
 
+// genC16Line: NewTextLine with every paragraph separator the library recognises.
+func genC16Line(r *core.Rng) any {
+	c := &c16Case{Kind: "textline", HAlign: r.Intn(3), Fonts: []int{r.Intn(len(c13FontFiles))}, Sizes: []float64{core.PickF(r, []float64{12, 8, 24, r.Range(5, 40)})}}
+	var sb strings.Builder
+	for k, n := 0, r.IntRange(1, 8); k < n; k++ {
+		switch r.Intn(6) {
+		case 0, 1, 2:
+			sb.WriteString(c16Word(r))
+			if r.Chance(0.5) {
+				sb.WriteString(" ")
+			}
+		case 3:
+			sb.WriteString(core.PickS(r, []string{"שלום", "世界", "αβγ", "x y", " "}))
+		default:
+			sb.WriteString(core.PickS(r, []string{"\n", "\n", "\r\n", "\r", "\u2028", "\u2029", "\u0085", "\v", "\f", "\n\n"}))
+		}
+	}
+	c.Parts = []string{sb.String()}
+	return c
+}
+
 func genC16(kind string) func(r *core.Rng) any {
 	return func(r *core.Rng) any {
 		c := &c16Case{Kind: kind, HAlign: r.Intn(4), VAlign: r.Intn(3)}
@@ -136,9 +157,158 @@ func isDroppable(r rune) bool {
 	return unicode.IsSpace(r) || r == '­' || r == '​' || r == '　' || r == ' '
 }
 
+// c16CheckLine: NewTextLine(face, s, halign). Every maximal run of s between paragraph separators
+// (LF, VT, FF, CR, CR LF as one, NEL, LS, PS) is one line; empty runs leave an empty line's height. The
+// spans of a line tile the run's text, do not overlap, and are placed by the alignment around x = 0.
+func c16CheckLine(c *c16Case, o *core.Obs) {
+	c13LoadFonts()
+	fam := c13Fonts[c.Fonts[0]]
+	if fam == nil {
+		o.Skip("font not available")
+		return
+	}
+	face := fam.Face(c.Sizes[0], canvas.Black, canvas.FontRegular, canvas.FontNormal)
+	input := c.Parts[0]
+	var t *canvas.Text
+	if !o.Call("NewTextLine", func() { t = canvas.NewTextLine(face, input, c16HAligns[c.HAlign]) }) {
+		return
+	}
+	// expected runs
+	type run struct {
+		text string
+		row  int
+	}
+	var runs []run
+	row := 0
+	rs := []rune(input)
+	cur := ""
+	isSep := func(r rune) bool { return (r >= 0x0A && r <= 0x0D) || r == 0x85 || r == 0x2028 || r == 0x2029 }
+	for i := 0; i < len(rs); i++ {
+		if isSep(rs[i]) {
+			if cur != "" {
+				runs = append(runs, run{cur, row})
+			}
+			cur = ""
+			row++
+			if rs[i] == '\r' && i+1 < len(rs) && rs[i+1] == '\n' {
+				i++
+			}
+			continue
+		}
+		cur += string(rs[i])
+	}
+	if cur != "" {
+		runs = append(runs, run{cur, row})
+	}
+	type lspan struct {
+		x, w float64
+		text string
+	}
+	var lines [][]lspan
+	var ys []float64
+	t.WalkLines(func(y float64, spans []canvas.TextSpan) {
+		var ln []lspan
+		for _, sp := range spans {
+			if sp.IsText() {
+				ln = append(ln, lspan{sp.X, sp.Width, sp.Text})
+			}
+		}
+		lines = append(lines, ln)
+		ys = append(ys, y)
+	})
+	if len(runs) > 0 {
+		o.NonTrivial()
+	}
+	desc := func() string {
+		var sb strings.Builder
+		for i, ln := range lines {
+			fmt.Fprintf(&sb, " | y=%.4g:", ys[i])
+			for _, sp := range ln {
+				fmt.Fprintf(&sb, " [%.4g+%.4g %q]", sp.x, sp.w, sp.text)
+			}
+		}
+		return fmt.Sprintf("NewTextLine(%q, %s) font %s size %.4g ->%s", input, []string{"Left", "Right", "Center"}[c.HAlign], c13FontFiles[c.Fonts[0]], c.Sizes[0], sb.String())
+	}
+	o.Decided(1)
+	if len(lines) != len(runs) {
+		o.Fail("line-count", "%d lines for %d non-empty runs between paragraph separators; %s", len(lines), len(runs), desc())
+		return
+	}
+	m := face.Metrics()
+	lh := m.Ascent + m.Descent + m.LineGap
+	for k, ln := range lines {
+		// the spans tile the run (logical order may differ from visual order)
+		rest := runs[k].text
+		used := make([]bool, len(ln))
+		for progress := true; progress && rest != ""; {
+			progress = false
+			for i, sp := range ln {
+				if !used[i] && sp.text != "" && strings.HasPrefix(rest, sp.text) {
+					used[i], rest, progress = true, rest[len(sp.text):], true
+					break
+				}
+			}
+		}
+		all := rest == ""
+		for i := range ln {
+			if !used[i] && ln[i].text != "" {
+				all = false
+			}
+		}
+		o.Decided(1)
+		if !all {
+			o.Fail("characters", "line %d does not consist of the characters of run %q; %s", k, runs[k].text, desc())
+			return
+		}
+		// rows: a run after n separators lies n line heights below the first row
+		o.Decided(1)
+		if math.Abs(math.Abs(ys[k])-float64(runs[k].row)*lh) > 1e-6*(1+lh*float64(runs[k].row)) {
+			o.Fail("row", "line %d (run %q after %d separators) has y=%.6g, expected %d line heights of %.6g; %s", k, runs[k].text, runs[k].row, ys[k], runs[k].row, lh, desc())
+			return
+		}
+		// no overlap, alignment
+		total, lo, hi := 0.0, math.Inf(1), math.Inf(-1)
+		for i, a := range ln {
+			total += a.w
+			lo, hi = math.Min(lo, a.x), math.Max(hi, a.x+a.w)
+			for j := i + 1; j < len(ln); j++ {
+				b := ln[j]
+				if ov := math.Min(a.x+a.w, b.x+b.w) - math.Max(a.x, b.x); ov > 1e-6+1e-3*math.Min(a.w, b.w) {
+					o.Decided(1)
+					o.Fail("overlap", "spans %q and %q of line %d overlap by %.4g mm; %s", a.text, b.text, k, ov, desc())
+					return
+				}
+			}
+		}
+		o.Decided(1)
+		tol := 1e-6 + 1e-6*total
+		switch c.HAlign {
+		case 0:
+			if math.Abs(lo) > tol || math.Abs(hi-total) > tol {
+				o.Fail("align-left", "line %d spans [%.6g,%.6g], expected [0,%.6g]; %s", k, lo, hi, total, desc())
+				return
+			}
+		case 1:
+			if math.Abs(hi) > tol || math.Abs(lo+total) > tol {
+				o.Fail("align-right", "line %d spans [%.6g,%.6g], expected [%.6g,0]; %s", k, lo, hi, -total, desc())
+				return
+			}
+		default:
+			if math.Abs(lo+total/2) > tol || math.Abs(hi-total/2) > tol {
+				o.Fail("align-centre", "line %d spans [%.6g,%.6g], expected [%.6g,%.6g]; %s", k, lo, hi, -total/2, total/2, desc())
+				return
+			}
+		}
+	}
+}
+
 func c16Check(ci any, o *core.Obs) {
 	c := ci.(*c16Case)
 	checkGlobals(o)
+	if c.Kind == "textline" {
+		c16CheckLine(c, o)
+		return
+	}
 	c13LoadFonts()
 	var faces []*canvas.FontFace
 	for i := range c.Parts {
@@ -495,6 +665,7 @@ func init() {
 		Strata: []core.Stratum{
 			{Name: "mixed", Quick: 1500, Thorough: 40000, Gen: genC16("mixed")},
 			{Name: "justify", Quick: 1000, Thorough: 30000, Gen: genC16("justify")},
+			{Name: "textline", Quick: 800, Thorough: 20000, Gen: genC16Line, Note: "NewTextLine with every paragraph separator (LF, VT, FF, CR, CR LF, NEL, LS, PS), mixed scripts, three alignments"},
 			{Name: "hostile", Quick: 500, Thorough: 15000, Gen: genC16("hostile")},
 			{Name: "align-spaces", Quick: 300, Thorough: 5000, Gen: genC16("align-spaces"), WitnessOnly: true, Note: "right-aligned and centred text with double spaces between words: the width of the spaces dropped at a line end is still counted, so such lines end short of the right edge / are off-centre by half of it"},
 		},
